@@ -69,6 +69,12 @@ pub fn build_store(knobs: &Knobs, timer: Arc<dyn Timer + Send + Sync>) -> StoreS
 }
 
 impl StoreStack {
+    pub fn record_len(&self, key: &[u8]) -> Option<u64> {
+        use memcrs::cache::cache::impl_details::CacheImplDetails;
+        let k = bytes::Bytes::copy_from_slice(key);
+        self.inner.get_by_key(&k).ok().map(|r| r.len() as u64)
+    }
+
     /// Σ Record::len() over the inner store, through the public read-only API.
     pub fn probe(&self) -> StoreProbe {
         // iterate through the public Cache API: a predicate that never removes
